@@ -403,3 +403,16 @@ theorem C01_three_peers_init (a b c : P2P) (RA RB RC : Nat → List (Input × In
 
 end Ggrs
 
+namespace Ggrs
+
+/-- **Non-vacuity of the triple world.** Three freshly built sessions (one player each) satisfy the
+invariant, and the world contains runs with arrivals at both other peers: A simulates frame 0, and
+its frame 0 — read off A's queue — arrives at B and at C. -/
+theorem C01_triple_nonvacuous :
+    TriInv ⟨(tri 0, ⟨0, fun _ => []⟩), (tri 1, ⟨0, fun _ => []⟩), (tri 2, ⟨0, fun _ => []⟩)⟩ ∧
+    ∃ tA', TStar ⟨(tri 0, ⟨0, fun _ => []⟩), (tri 1, ⟨0, fun _ => []⟩), (tri 2, ⟨0, fun _ => []⟩)⟩
+      ⟨(triA1, tA'), (triB1, ⟨0, fun _ => []⟩), (triC1, ⟨0, fun _ => []⟩)⟩ :=
+  ⟨C01_three_peers_init (tri 0) (tri 1) (tri 2) _ _ _ 3 rfl rfl rfl rfl rfl rfl rfl rfl rfl rfl rfl rfl, demo_triple_run _ _ _⟩
+
+end Ggrs
+
